@@ -35,6 +35,7 @@ def main():
     for prop in sorted(os.listdir(SEEDOUT)):
         for m in sorted(os.listdir(os.path.join(SEEDOUT, prop))):
             sid = f"{prop}-{m}"
+            prop_id = prop[:3]
             if ONLY and sid not in ONLY and prop not in ONLY:
                 continue
             d = os.path.join(SEEDOUT, prop, m)
@@ -76,7 +77,7 @@ def main():
             caught = {}
             try:
                 ok, _ = apply_patch(REPO, rp)
-                props = [prop] + [p for p in EXTRA.get(sid, [])]
+                props = [prop_id] + [p for p in EXTRA.get(sid, [])]
                 for p in props:
                     c = sh(f"./check {p} quick", cwd=VERIF, timeout=3600)
                     lines = [l for l in c.stdout.split("\n") if l.startswith("VIOLATION")]
@@ -92,16 +93,17 @@ def main():
             os.makedirs(out, exist_ok=True)
             open(os.path.join(out, "patch.diff"), "w").write(rebased)
             shutil.copy(demo, os.path.join(out, os.path.basename(demo)))
-            meta_out = {"id": sid, "property": prop, "summary": meta.get("summary", ""), "needs": meta.get("needs", ""), "files_changed": meta.get("files_changed", []),
+            meta_out = {"id": sid, "property": prop_id, "summary": meta.get("summary", ""), "needs": meta.get("needs", ""), "files_changed": meta.get("files_changed", []),
                         "confirmed": {"what_i_ran": ran, "tests_still_pass": True, "demo_fails_with_change": True, "demo_passes_without": True, "base": sh(f"git -C {REPO} log --format=%h -1").stdout.strip()},
                         "checks": caught, "caught_by": [p for p, v in caught.items() if v["exit"] == 1], "flagged_inconclusive_by": [p for p, v in caught.items() if v["exit"] == 2]}
             json.dump(meta_out, open(os.path.join(out, "meta.json"), "w"), indent=1)
-            rows.append((sid, "caught by " + ",".join(meta_out["caught_by"]) if meta_out["caught_by"] else ("INCONCLUSIVE " + ",".join(meta_out["flagged_inconclusive_by"]) if meta_out["flagged_inconclusive_by"] else "MISSED"), caught.get(prop, {}).get("first", "")))
+            rows.append((sid, "caught by " + ",".join(meta_out["caught_by"]) if meta_out["caught_by"] else ("INCONCLUSIVE " + ",".join(meta_out["flagged_inconclusive_by"]) if meta_out["flagged_inconclusive_by"] else "MISSED"), caught.get(prop_id, {}).get("first", "")))
             print(rows[-1], flush=True)
     print("\n".join(f"{a:10} {b:30} {c}" for a, b, c in rows))
 
 
 EXTRA = {
+    "C03b-m2": ["C14"], "C07b-m1": ["C14", "C03"], "C14b-m1": ["C03"], "C03b-m1": ["C14"], "C06b-m2": ["C04"], "C19b-m2": ["C04"], "C05b-m2": ["C01"], "C20b-m2": ["C08"], "C20b-m1": ["C18"],
     "C10-m2": ["C01"], "C07-m2": ["C03"], "C10-m1": [], "C14-m1": ["C03"], "C05-m2": [], "C12-m1": ["C11"], "C12-m2": ["C13"], "C20-m2": [], "C02-m2": ["C01"],
 }
 
